@@ -16,12 +16,13 @@ func init() {
 			ID: "C13", Title: "Tables are isolated: exporting a route never alters stored routes", Level: "other",
 			Technique:   "ownership analysis (R-OWN): whole-repository mutation summaries for route path objects (fixpoint over static calls), borrowed/owned classification of every argument of a mutating callee, post-dedup immutability by must-not-reach on go/cfg",
 			DesignRef:   "DESIGN.md §3 R-OWN, §4 C13",
-			Decided:     "(1) no implementation of RouteTableClient other than the Adj-RIB-In (which owns what the FSM hands it) mutates the path objects it is given (AddPath, AddPathInitialDump, RemovePath, ReplacePath, RefreshRoute), according to mutation summaries computed over the whole repository; (2) at every call site in the RIB pipeline and session layer of a function that may mutate a path parameter (the export rewrites checkPropagateUpdate*, redistribution, Prepend, SetNextHop, the Adj-RIB-In's AddPath …) the argument is OWNED: the result of Copy/CheckRedistribute/Chain.Process/a constructor, or a local re-bound to one before the call — never a callback parameter, an element of a parameter slice or a path read out of a routing table; (3) after BGPPath.Dedup() swapped in the shared attribute block no store into that block is reachable in AdjRIBOut.AddPath/RefreshRoute; (4) Chain.Process copies its input before the first action and never returns the caller's object, which is what makes in-place actions safe.",
-			NotDecided:  "aliasing through slices inside ASPathSegment.ASNs and similar shared backing arrays (Copy() is treated as deep); interface calls other than RouteTableClient are not followed by the summaries.",
+			Decided:     "(1) no implementation of RouteTableClient other than the Adj-RIB-In (which owns what the FSM hands it) mutates the path objects it is given (AddPath, AddPathInitialDump, RemovePath, ReplacePath, RefreshRoute), according to mutation summaries computed over the whole repository; (2) at every call site in the RIB pipeline and session layer of a function that may mutate a path parameter (the export rewrites checkPropagateUpdate*, redistribution, Prepend, SetNextHop, the Adj-RIB-In's AddPath …) the argument is OWNED: the result of Copy/CheckRedistribute/Chain.Process/a constructor, or a local re-bound to one before the call — never a callback parameter, an element of a parameter slice or a path read out of a routing table; (3) after BGPPath.Dedup() swapped in the shared attribute block no store into that block is reachable in AdjRIBOut.AddPath/RefreshRoute; (4) Chain.Process copies its input before the first action and never returns the caller's object, which is what makes in-place actions safe; (5) no element of an attribute sequence (the ASNs of an AS_PATH segment, communities, large communities, cluster list, unknown attributes — shared between copies of a path) is overwritten in place anywhere in the repository except in storage the same function allocated before on every path.",
+			NotDecided:  "in-place append into spare capacity of a shared backing array (element stores and copy() are decided, rule 5); interface calls other than RouteTableClient are not followed by the summaries.",
 			TrustedBase: stdTrusted,
 		},
 		Run: runC13,
 		Controls: []Control{
+			{Name: "serializer-rewrites-shared-asns", File: "protocols/bgp/packet/path_attributes.go", Old: "\tfor _, segment := range *pa.Value.(*types.ASPath) {\n\t\tsegmentsBuf.WriteByte(segment.Type)\n", New: "\tfor _, segment := range *pa.Value.(*types.ASPath) {\n\t\tfor i := range segment.ASNs {\n\t\t\tif !opt.Use32BitASN && segment.ASNs[i] > 65535 {\n\t\t\t\tsegment.ASNs[i] = 23456\n\t\t\t}\n\t\t}\n\t\tsegmentsBuf.WriteByte(segment.Type)\n", Expect: "attribute-sequences-written-only-when-fresh"},
 			{Name: "refresh-rewrites-locrib-path", File: "routingtable/adjRIBOut/adj_rib_out.go", Old: "\t\tp, redist := p.CheckRedistribute(route.BGPPathType)\n", New: "\t\tvar redist bool\n", Expect: "mutator-gets-owned-path"},
 			{Name: "store-after-dedup", File: "routingtable/adjRIBOut/adj_rib_out.go", Old: "\tp.BGPPath = p.BGPPath.Dedup()\n\n\treturn a.addPath(pfx, p)", New: "\tp.BGPPath = p.BGPPath.Dedup()\n\tif a.sessionAttrs.RouteServerClient {\n\t\tp.BGPPath.BGPPathA.MED = 0\n\t}\n\n\treturn a.addPath(pfx, p)", Expect: "no-store-after-dedup"},
 			{Name: "chain-returns-callers-path", File: "routingtable/filter/chain.go", Old: "\tmp := pa.Copy()\n", New: "\tif len(c) == 0 {\n\t\treturn pa, false\n\t}\n\n\tmp := pa.Copy()\n", Expect: "process-copies-first"},
@@ -31,6 +32,7 @@ func init() {
 }
 
 func runC13(c *core.Ctx) {
+	attributeSequencesFresh(c)
 	p := c.P
 	mut := p.Mutators()
 	client := p.Named("routingtable", "RouteTableClient")
